@@ -19,7 +19,7 @@ func init() {
 			"C20.2 the advertised address is the bound socket's own LocalAddr()/Addr() with only its IP overwritten by RelayAddress (range, static) or untouched (none), and a requested port is passed unchanged to the bind call; " +
 			"C20.3 clean failure: every return with a non-nil error returns no socket, and the retry loops are bounded by MaxRetries; " +
 			"C20.5 requested ports are not invented: a non-zero RequestedPort handed to a generator is a port a generator bound before (read from the address it returned), or that port + 1 (the RFC 5766 reservation pair); C20.6 the socket / listener an allocation relays on is the result of a generator call made for that allocation, never one taken from a table or field where another request could find it too; C20.7 a socket obtained from the generator inside a loop (the even-port probe) is closed in the same iteration, not by a defer that runs when the whole search returns — held probes fill the range and make the search fail while ports are free; " +
-			"C20.4 UDP relay sockets are bound by a plain ListenPacket: SO_REUSEPORT (reuseport.Control) is referenced only by the TCP listener/dialer paths, so a busy UDP port is refused by the kernel rather than shared. C20.8 nothing rewrites MinPort/MaxPort except a tightening that provably keeps MinPort ≤ MaxPort.",
+			"C20.4 UDP relay sockets are bound by a plain ListenPacket: SO_REUSEPORT (reuseport.Control) is referenced only by the TCP listener/dialer paths, so a busy UDP port is refused by the kernel rather than shared. C20.8 nothing rewrites MinPort/MaxPort except a tightening that provably keeps MinPort ≤ MaxPort. C20.9 RelayAddressGeneratorPortRange.Validate refuses only unset fields, a failed library call, or MaxPort < MinPort (closed refusal set).",
 		NotCovered: "that two live sockets cannot share a port is the kernel's bind() semantics; the quality of the random source; a MinPort > MaxPort configuration (outside the property's precondition).",
 		Run:        runC20,
 	})
@@ -762,6 +762,7 @@ func runC20(c *Ctx) {
 	ruleRelaySocketFresh(c, "C20.6")
 	ruleProbeReleasedPerIteration(c, "C20.7")
 	ruleValidateKeepsRange(c, "C20.8")
+	ruleValidateRefusals(c, "C20.9")
 }
 
 func isClosureCall(w *World, call *ssa.Call) bool {
